@@ -57,14 +57,37 @@ func genBytes(seed, n int) []byte {
 	return p
 }
 
+// mixBytes is the aperiodic generated payload `#seed:n` (same formula as LzModel/Driver.lean).
+func mixBytes(seed, n int) []byte {
+	p := make([]byte, n)
+	for k := range p {
+		x := uint64(seed)*0x9E3779B97F4A7C15 + uint64(k)*0xBF58476D1CE4E5B9
+		x ^= x >> 31
+		x *= 0x94D049BB133111EB
+		x ^= x >> 29
+		p[k] = byte(x >> 24)
+	}
+	return p
+}
+
 func unhx(s string) []byte {
 	if s == "-" {
 		return nil
 	}
-	if len(s) > 0 && s[0] == '@' {
-		var seed, n int
-		fmt.Sscanf(s, "@%d:%d", &seed, &n)
-		return genBytes(seed, n)
+	if len(s) > 0 && (s[0] == '@' || s[0] == '#' || s[0] == '=') {
+		var a, n int
+		fmt.Sscanf(s[1:], "%d:%d", &a, &n)
+		switch s[0] {
+		case '@':
+			return genBytes(a, n)
+		case '#':
+			return mixBytes(a, n)
+		}
+		p := make([]byte, n)
+		for i := range p {
+			p[i] = byte(a)
+		}
+		return p
 	}
 	b, err := hex.DecodeString(s)
 	if err != nil {
